@@ -7,11 +7,17 @@ CONSTANTS NPH, DEPTH, MODE
 VARIABLES pop, hist
 Types == <<"title", "body", "ctrTitle", "subTitle", "dt", "sldNum", "ftr", "hdr", "obj", "chart", "tbl", "clipArt", "dgm", "media", "sldImg", "pic">>
 Szs == <<"full", "half", "quarter">>
-Ph(t, i, o, z, g) == [type |-> Types[t], idx |-> i, orient |-> o, sz |-> Szs[z], own |-> g]
+\* car: the element that CARRIES the p:ph in the layout - "sp" (an empty placeholder), "pic" / "gf" (a placeholder that was filled in
+\* Slide Master view: a p:pic or a p:graphicFrame with a p:ph; a graphic frame always has its own p:xfrm).  The slide's clone is a p:sp.
+PhC(t, i, o, z, g, car) == [type |-> Types[t], idx |-> i, orient |-> o, sz |-> Szs[z], own |-> g, car |-> car]
+Ph(t, i, o, z, g) == PhC(t, i, o, z, g, "sp")
+Filled == {PhC(t, i, "horz", 1, g, "pic") : t \in {9, 12, 16}, i \in {1, 13}, g \in BOOLEAN}
+          \cup {PhC(t, i, "horz", 1, TRUE, "gf") : t \in {9, 10, 11, 13}, i \in {1, 13}}
 \* MODE "single": every single placeholder variant; "pairs": pairs/triples over a reduced variant set
 Variants == IF MODE = "single"
-            THEN {Ph(t, i, o, z, g) : t \in DOMAIN Types, i \in {0, 1, 13}, o \in {"horz", "vert"}, z \in DOMAIN Szs, g \in BOOLEAN}
+            THEN {Ph(t, i, o, z, g) : t \in DOMAIN Types, i \in {0, 1, 13}, o \in {"horz", "vert"}, z \in DOMAIN Szs, g \in BOOLEAN} \cup Filled
             ELSE {Ph(t, i, "horz", 1, g) : t \in {1, 2, 5, 9, 16}, i \in {0, 1}, g \in BOOLEAN} \cup {Ph(2, 1, "vert", 2, FALSE)}
+                 \cup {PhC(16, 1, "horz", 1, TRUE, "pic"), PhC(11, 13, "horz", 1, TRUE, "gf")}
 Init == pop = <<>> /\ hist = <<>>
 AddPh == Len(pop) < NPH /\ hist = <<>> /\ \E v \in Variants : pop' = Append(pop, v) /\ UNCHANGED hist
 Act(op, k, j) == [op |-> op, k |-> k, j |-> j]
